@@ -4,7 +4,7 @@ from fractions import Fraction
 
 import numpy as np
 
-from arrays import Lab, mk_universe, nelem, ordered_subsets, random_values, same_dims
+from arrays import CODES, Lab, mk_universe, nelem, observe_values, ordered_subsets, random_values, same_dims
 from common import cq_list
 import props.c01 as c01
 import props.c05 as c05
@@ -191,6 +191,15 @@ def stack_split_families(tier):
             for l in xs:
                 vs = [dict(kind="split", uni=uni, letter=l, arr=permute_desc(uni, x0, p)) for p in perms(xs)]
                 fams.append(dict(stream="exact", coq=False, family="STK", fixed="source", variants=vs))
+        # DataFrame export and import of an array stored in every order, as a copy (C order) and as a transposed view of the
+        # array stored in the first order (the same numbers in another memory layout)
+        for xs in [list(c) for r in (2, 3) for c in itertools.combinations(L, r)]:
+            x0 = dict(dims=xs, values=[13 * i + (i * i) % 11 + 1 for i in range(nelem(uni, xs))])
+            for index in (True, False):
+                for d2c in (None, xs[-1]):
+                    vs = [dict(kind="df", uni=uni, arr=dict(permute_desc(uni, x0, p), layout=lay), index=index, d2c=d2c)
+                          for p in perms(xs) for lay in ("C", "V", "F")]
+                    fams.append(dict(stream="exact", coq=False, family="STK", fixed="the array", variants=vs))
     return fams
 
 
@@ -205,6 +214,19 @@ def run_stack_split(v):
         if r["kind"] == "ok":
             r["value"] = observe_array(r["value"])
         return r
+    if v["kind"] == "df":
+        a = build_array(uni, v["arr"])
+
+        def f():
+            df = a.to_df(index=v["index"], dim_to_columns=(uni[v["d2c"]]["name"] if v["d2c"] else None))
+            back = fd.FlodymArray.from_df(dims=a.dims, df=df)
+            entries = None
+            if v["d2c"] is None:
+                d2 = df.reset_index() if v["index"] else df
+                names = [uni[l]["name"] for l in v["arr"]["dims"]]
+                entries = [[[CODES(r[n]) for n in names], observe_values(np.array([r["value"]]))[0]] for _, r in d2.iterrows()]
+            return dict(back=observe_array(back), entries=entries)
+        return observe(f)
     a = build_array(uni, v["arr"])
     r = observe(lambda: a.split(v["letter"]))
     if r["kind"] == "ok":
@@ -217,6 +239,19 @@ def oracle_stack_split(case, obs):
         uni = v["uni"]
         if o["kind"] != "ok":
             return f"[STK] {v['kind']} raised {o['exc']}: {o['msg'][:80]}"
+        if v["kind"] == "df":
+            src = Lab.from_desc(uni, v["arr"])
+            tag = f"[DF] array stored as {v['arr']['dims']} (layout {v['arr'].get('layout')}), to_df(index={v['index']}, dim_to_columns={v['d2c']})"
+            back = Lab.from_obs(o["value"]["back"])
+            for lab in src.labels():
+                if back.at(lab) != src.at(lab):
+                    return f"{tag}: from_df(to_df()) has {back.at(lab)} at {lab}, the array has {src.at(lab)}"
+            if o["value"]["entries"] is not None:
+                want = sorted(([CODES(lab[l]) for l in v["arr"]["dims"]], src.at(lab)) for lab in src.labels())
+                got = sorted((e[0], Fraction(e[1][0], e[1][1])) for e in o["value"]["entries"])
+                if got != want:
+                    return f"{tag}: the table does not list every entry once under its labels"
+            continue
         if v["kind"] == "stack":
             got = Lab.from_obs(o["value"])
             want_letters = v["parts"][0]["dims"] + [v["new"]]
